@@ -101,6 +101,13 @@ func (agc *AggregatorContext) sanityCheck(msg *types.MsgCreatePrice) error {
 		if len(pSource.Prices) == 0 || len(pSource.Prices) > int(common.MaxDetID) || !agc.params.IsValidSource(pSource.SourceID) {
 			return errors.New("source should be valid and provide at least one price")
 		}
+		// every price must be a decimal integer: the calculator and the aggregator parse it with big.Int.SetString and
+		// would otherwise keep a nil price in memory, on which every later message of the round panics
+		for _, pDetID := range pSource.Prices {
+			if _, ok := new(big.Int).SetString(pDetID.Price, 10); !ok {
+				return errors.New("price should be a decimal integer")
+			}
+		}
 		// check with params is coressponding source is deteministic
 		if agc.params.IsDeterministicSource(pSource.SourceID) {
 			for _, pDetID := range pSource.Prices {
